@@ -106,7 +106,10 @@ func C14(c *core.Ctx) error {
 	}
 	var mu sync.Mutex
 	decided, checks := 0, 0
-	core.ParallelFor(len(combos), func(i int) {
+	const chunkSize = 350
+	nChunks := (len(all) + chunkSize - 1) / chunkSize
+	core.ParallelFor(len(combos)*nChunks, func(j int) {
+		i, ch := j/nChunks, j%nChunks
 		g := combos[i]
 		gname := fmt.Sprintf("probe %s %s", g.formatter, g.placement)
 		if g.perFile {
@@ -114,8 +117,8 @@ func C14(c *core.Ctx) error {
 		}
 		for _, part := range []string{"main", "quarantine"} {
 			var cases []shapes.Case
-			for _, cs := range all {
-				if cs.InPkgOnly && !g.inPackage() {
+			for k, cs := range all {
+				if k/chunkSize != ch || (cs.InPkgOnly && !g.inPackage()) {
 					continue
 				}
 				// a type parameter named like the source package cannot coexist with the source-package qualifier
@@ -222,8 +225,8 @@ func C14(c *core.Ctx) error {
 				checks += len(lineCase)
 				mu.Unlock()
 			}
-			if part == "main" && i%2 == 0 {
-				c.Ev.Sample(map[string]any{"combo": gname, "interfaces": len(cases), "example": cases[(i*13)%len(cases)].ID})
+			if part == "main" && j%5 == 0 {
+				c.Ev.Sample(map[string]any{"combo": gname, "interfaces": len(cases), "example": cases[(j*13)%len(cases)].ID})
 			}
 			m.Remove()
 		}
